@@ -2094,10 +2094,14 @@ def c13(tier, replay=None):
         report.sample({'value': repr(value)[:100], 'text': o.get('text'), 'same': o.get('same')})
     _c13_placeholder(report, rig)
     R.close_db()
+    nwritten = _c13_written_files(report, tier, nontrivial)
     report.coverage['distinct_nontrivial'] = len(nontrivial)
     report.coverage['exhaustive'] = len(chosen) == len(recs)
     report.notes.append('%d mutations taken through get_evolution_content()+exec' % level2)
     report.coverage['rule'] = (
+        'Part 3: %d model-set pairs of Hint.tla taken through the whole workflow on a real project: `evolve --hint '
+        '--write NAME`, NAME listed in SEQUENCE, `evolve --execute`, then a fresh Evolver must find nothing left; hints '
+        'that need a user value must refuse to run.  Parts 1-2: ' % nwritten +
         'TLC enumerates every value of Codec.tla\'s grammar and evaluates the transcribed renderer '
         '(error sinks for the Q case analysis, operator precedence of combined expressions): %d values, %d '
         'replayed: serialize_to_python() text evaluated by Python must give the value back; a share of them '
@@ -2115,6 +2119,85 @@ def _walk_q(v):
     for x in v.get('items') or []:
         out += _walk_q(x)
     return out
+
+
+def _c13_written_files(report, tier, nontrivial):
+    import random
+    from concurrent.futures import ThreadPoolExecutor
+    from .common import seed
+    from .engines import sigpair
+    from .tlc import run_tlc, require_ok, write_cfg
+    recs = []
+    for start in (1, 3, 4):
+        cfg = write_cfg('MC_Hint_w_%d.cfg' % start, '''
+SPECIFICATION Spec
+CONSTANTS
+  MaxEdits = 2
+  StartId = %d
+  EmitRecords = TRUE
+CONSTRAINT Constraint
+''' % start)
+        res = require_ok(run_tlc('Hint', cfg, workers=8, timeout=3000), 'Hint.tla (written files)')
+        report.add_tlc('Hint edits<=2 start=%d (pairs for --hint --write)' % start, res.stats())
+        recs += res.records
+    rng = random.Random(seed() * 271 + 13)
+    strata = {}
+    for r in recs:
+        if r['viol'] or not r['hint']:
+            continue           # C05's matter (open findings there), or nothing to hint
+        kinds = tuple(sorted(set((m['k'], m.get('prop')) for m in r['hint'])))
+        strata.setdefault(kinds, []).append(r)
+    for k in strata:
+        rng.shuffle(strata[k])
+    limit = 40 if tier == 'quick' else 500
+    chosen = []
+    while len(chosen) < limit and any(strata.values()):
+        for k in sorted(strata, key=repr):
+            if strata[k] and len(chosen) < limit:
+                chosen.append(strata[k].pop())
+    with ThreadPoolExecutor(16) as ex:
+        observations = list(ex.map(sigpair.hint_write_roundtrip, chosen))
+    for rec, o in zip(chosen, observations):
+        report.coverage['evaluations'] += 1
+        hint = ['%s(%s%s)' % (m['k'], m.get('m'), ('.' + m['f']) if m.get('f') not in (None, 'None') else
+                              (' ' + m['prop']) if m.get('prop') not in (None, 'None') else '')
+                for m in rec['hint']]
+        if o.get('setup_error'):
+            report.notes.append('written-files: start models not installable: %s' % str(o['setup_error'])[:120])
+            continue
+        report.coverage['traces_validated_against_impl'] += 1
+        nontrivial.add('written:' + json_key(rec['hint'], rec['start']))
+        needs_user = any(m['k'] in ('Add', 'Chg') and m.get('init') not in (None, 'None') for m in rec['hint'])
+        detail = {'hint': hint, 'needs_user_value': needs_user,
+                  'observed': {k: o.get(k) for k in ('write_outcome', 'write_error', 'written', 'exec_outcome',
+                                                     'exec_error', 'exec_error_type', 'after_required',
+                                                     'after_diff_empty')},
+                  'text': (o.get('text') or '')[-600:]}
+        # the hint deletes a model and, separately, touches a model that still refers to it
+        deleted = set(m['m'] for m in rec['hint'] if m['k'] == 'DelM')
+        refers = any(m['k'] != 'DelM' and any(
+            (fs.get('rel') in deleted) for fs in (rec['old'].get(m['m'], {}).get('fields') or {}).values())
+            for m in rec['hint'])
+        fp = {'part': 'written-file', 'needs_user_value': needs_user,
+              'deletes_referenced_model': bool(deleted and refers)}
+        if needs_user:
+            if o.get('exec_outcome') == 'ok':
+                report.fail(dict(fp, **{'class': 'placeholder-ran'}), detail)
+            continue
+        if not o.get('written'):
+            report.fail(dict(fp, **{'class': 'hint-not-written'}), detail)
+            continue
+        if o.get('exec_outcome') != 'ok':
+            et = o.get('exec_error_type') or ''
+            msg = o.get('exec_error') or ''
+            if 'Error applying evolution' in msg:
+                report.notes.append('written evolution loaded, execution failed on the data: %s' % msg[:100])
+            else:
+                report.fail(dict(fp, **{'class': 'written-evolution-not-usable', 'error_type': et}), detail)
+            continue
+        if o.get('after_required') or o.get('after_diff_empty') is False:
+            report.fail(dict(fp, **{'class': 'written-evolution-leaves-residual'}), detail)
+    return len(chosen)
 
 
 def _c13_placeholder(report, rig):
